@@ -19,14 +19,25 @@ let two40 = ZT.shift_left ZT.one 40
 let q_of_ints (n : string) (m : string) : q = { qnum = z_of_string n; qden = pos_of_zt (ZT.of_string m) }
 let eps : q = { qnum = z_of_int 1; qden = pos_of_zt two40 }
 
-let tol_of_d (d : ZT.t) : ZT.t = ZT.add ZT.one (ZT.div d two40)
+let two48 = ZT.shift_left ZT.one 48
 
-let parse_case (c : string) : (profile * ZT.t) option =
+(* tolerance on token instants: 1 ns + D*2^-40 (DESIGN.md section 3). For a line the float64
+   closed form subtracts two nearly equal numbers when the rate barely changes; its conditioning
+   is kappa = max(from,to)/|to-from|, so the term D*kappa*2^-48 is added (it exceeds D*2^-40 only
+   for kappa > 256, i.e. for lines whose rate changes by less than 0.4 % over the whole profile). *)
+let tol_of (d : ZT.t) (kappa : ZT.t) : ZT.t =
+  ZT.add (ZT.add ZT.one (ZT.div d two40)) (ZT.div (ZT.mul d kappa) two48)
+
+let kappa_of (fn : string) (tn : string) : ZT.t =
+  let f = ZT.of_string fn and t = ZT.of_string tn in
+  if ZT.equal f t then ZT.zero else ZT.cdiv (ZT.max f t) (ZT.abs (ZT.sub t f))
+
+let parse_case (c : string) : (profile * ZT.t * ZT.t) option =
   match split_blank c with
-  | ["const"; on; m; d] -> Some (PConst (q_of_ints on m, z_of_string d), ZT.of_string d)
-  | ["line"; fn; tn; m; d] -> Some (PLine (q_of_ints fn m, q_of_ints tn m, z_of_string d), ZT.of_string d)
-  | ["step"; fn; tn; m; st; d] -> Some (PStep (q_of_ints fn m, q_of_ints tn m, z_of_string st, z_of_string d), ZT.of_string d)
-  | ["once"; n] -> Some (POnce (z_of_string n), ZT.zero)
+  | ["const"; on; m; d] -> Some (PConst (q_of_ints on m, z_of_string d), ZT.of_string d, ZT.zero)
+  | ["line"; fn; tn; m; d] -> Some (PLine (q_of_ints fn m, q_of_ints tn m, z_of_string d), ZT.of_string d, kappa_of fn tn)
+  | ["step"; fn; tn; m; st; d] -> Some (PStep (q_of_ints fn m, q_of_ints tn m, z_of_string st, z_of_string d), ZT.of_string d, ZT.zero)
+  | ["once"; n] -> Some (POnce (z_of_string n), ZT.zero, ZT.zero)
   | _ -> None
 
 let parse_toks (s : string) : ZT.t list =
@@ -54,8 +65,8 @@ let rec close tol (a : ZT.t list) (b : ZT.t list) =
 let predict (c : string) (obs : string) : string * string * bool =
   match parse_case c with
   | None -> ("unknown-case", "BAD:unknown-case", false)
-  | Some (p, d) ->
-      let tol = tol_of_d d in
+  | Some (p, d, kappa) ->
+      let tol = tol_of d kappa in
       let (mline, mtoks, mnan, mleft, mfin) = model_line p in
       (match split_blank obs with
        | [left; fin; post; n; toks] ->
@@ -71,7 +82,16 @@ let predict (c : string) (obs : string) : string * string * bool =
                  let left_ok = ZT.equal (ZT.of_string left) (ZT.of_int nx) in
                  if not exact_fin then "finish instant is not start+duration (want offset " ^ ZT.to_string (zt_of_z (spec_finish p)) ^ ")"
                  else if not left_ok then "Left() before start differs from the number of tokens"
-                 else Printf.sprintf "tokens do not realise the integral of the configured rate (observed %d tokens, specification %d)" nx (List.length mtoks)
+                 else if nx <> List.length mtoks then
+                   Printf.sprintf "tokens do not realise the integral of the configured rate (observed %d tokens, specification %d)" nx (List.length mtoks)
+                 else begin
+                   (* same count: name the first operation scheduled outside its nanosecond *)
+                   let rec first k a b = match a, b with
+                     | x :: ar, y :: br -> if ZT.leq (ZT.abs (ZT.sub x y)) tol then first (k + 1) ar br
+                                           else Printf.sprintf "operation %d scheduled at offset %s ns, the integral of the configured rate reaches %d at %s ns" k (ZT.to_string y) k (ZT.to_string x)
+                     | _ -> "token instants outside [start, start+duration] or not monotone" in
+                   first 0 mtoks xs
+                 end
                end
                else if post = "left" then "exhausted schedule reports Left() <> 0"
                else if post <> "1" then "exhausted schedule does not keep reporting start+duration with ok=false"
